@@ -13,7 +13,8 @@ from .. import canon_session, doccheck, editgen, engine_oracles, engine_run, gen
 PROFILE = {"vmerge": 0.0, "point_comment": 0.0}
 PROFILES = {"default": PROFILE,
             "rich": dict(PROFILE, split_identical=0.4, tab=0.3, br=0.25, fmt=0.6, opaque=0.2, bookmark=0.15, hyperlink=0.1,
-                         table=0.35, nested_table=0.3, comment=0.25, **{"del": 0.2}, ins=0.1, subst=0.1, header=0.5, footer=0.4)}
+                         table=0.35, nested_table=0.3, comment=0.25, **{"del": 0.2}, ins=0.1, subst=0.1, header=0.5, footer=0.4,
+                         para_mark_rev=0.15)}
 
 
 def touches_foreign_insertion(doc, edits):
